@@ -8,7 +8,7 @@ import (
 
 // ---- random rounds -----------------------------------------------------------------------------------------------------
 
-var families = []string{"share", "cancel", "fault", "free", "kid-shapes", "skip-remote", "rotate", "cancel-big"}
+var families = []string{"share", "cancel", "fault", "free", "kid-shapes", "skip-remote", "rotate", "cancel-big", "preempt"}
 
 var faultKinds = []fakejwks.Kind{fakejwks.Status500, fakejwks.Truncated, fakejwks.KeysNotArray, fakejwks.Abort, fakejwks.BodyReadErr, fakejwks.OAuthErr400}
 
@@ -169,7 +169,12 @@ type phaseOpts struct {
 	firstFault bool    // the first (held) download is faulty, later ones deliver
 	firstEmpty bool    // the first download answers 200 with an empty key set
 	ownerFirst bool
+	heldProb   float64 // per caller (gated phases): it arrives held at a yield point inside VerifySignature (arrive-held)
 }
+
+// maxHoldK: a verification that misses the cache passes 6 yield points on its own goroutine (start and end of the spans
+// VerifySignature, verifySignatureRemote, keysFromRemote); two more leave room for spans a changed library adds.
+const maxHoldK = 8
 
 func genPhase(r *rand.Rand, c0, s int, o phaseOpts) phaseSpec {
 	ps := phaseSpec{Mode: o.mode, Shape: s, Def: fakejwks.Step{Kind: fakejwks.Deliver}}
@@ -246,13 +251,39 @@ func genPhase(r *rand.Rand, c0, s int, o phaseOpts) phaseSpec {
 		return ps
 	}
 	// gated
+	heldK := make([]int, o.n) // -1: arrives normally
+	resumeAt := make([]int, o.n)
+	for i := range heldK {
+		heldK[i] = -1
+		if o.heldProb > 0 && r.Float64() < o.heldProb {
+			heldK[i] = r.IntN(maxHoldK + 1)
+			resumeAt[i] = r.IntN(3) // 0: once everybody has arrived, 1: after the cancellations, 2: after the first release
+		}
+	}
+	resumeAll := func(at int) {
+		any := false
+		for _, i := range order {
+			if heldK[i] >= 0 && resumeAt[i] == at {
+				ps.Actions = append(ps.Actions, action{Op: "resume", I: i, NoSettle: true})
+				any = true
+			}
+		}
+		if any {
+			ps.Actions = append(ps.Actions, action{Op: "settle"})
+		}
+	}
 	for k, i := range order {
 		if plans[i].point == "before" {
 			ps.Actions = append(ps.Actions, action{Op: "cancel", I: i, NoSettle: true})
 		}
+		if heldK[i] >= 0 {
+			ps.Actions = append(ps.Actions, action{Op: "arrive-held", I: i, K: heldK[i], NoSettle: !(o.ownerFirst && k == 0) && r.IntN(2) == 0})
+			continue
+		}
 		ps.Actions = append(ps.Actions, action{Op: "arrive", I: i, NoSettle: !(o.ownerFirst && k == 0)})
 	}
 	ps.Actions = append(ps.Actions, action{Op: "settle"})
+	resumeAll(0)
 	stepwise := r.IntN(2) == 0
 	any := false
 	for _, i := range order {
@@ -264,6 +295,7 @@ func genPhase(r *rand.Rand, c0, s int, o phaseOpts) phaseSpec {
 	if any && !stepwise {
 		ps.Actions = append(ps.Actions, action{Op: "settle"})
 	}
+	resumeAll(1)
 	ps.Actions = append(ps.Actions, action{Op: "release", I: 0, NoSettle: true})
 	for _, i := range order {
 		if plans[i].point == "after-release" {
@@ -271,6 +303,7 @@ func genPhase(r *rand.Rand, c0, s int, o phaseOpts) phaseSpec {
 		}
 	}
 	ps.Actions = append(ps.Actions, action{Op: "settle"})
+	resumeAll(2)
 	for d := 1; d < len(ps.Script); d++ {
 		if ps.Script[d].Hold {
 			ps.Actions = append(ps.Actions, action{Op: "release", I: d})
@@ -351,6 +384,12 @@ func genRound(r *rand.Rand, caseIdx int) roundSpec {
 		s2 := next(shapes[s].Name)
 		adv(genPhase(r, c, s2, phaseOpts{mode: pick(r, "gated", "free"), n: small(), bias: pick(r, "new", "kidless-valid", "cached")}), true)
 		adv(genPhase(r, c, s2, phaseOpts{mode: "free", n: small()}), true)
+	case "preempt":
+		// callers preempted between two steps of VerifySignature while others arrive, are cancelled, downloads are released
+		adv(genPhase(r, c, start, phaseOpts{mode: "gated", n: small(), bias: "new", heldProb: 0.5, cancelProb: pick(r, 0.0, 0.2), ownerFirst: r.IntN(2) == 0}), true)
+		s2 := next(shapes[start].Name)
+		adv(genPhase(r, c, s2, phaseOpts{mode: "gated", n: n(), bias: pick(r, "new", "cached", "retired"), heldProb: 0.3, cancelProb: pick(r, 0.0, 0.15), firstFault: r.IntN(5) == 0}), true)
+		adv(genPhase(r, c, s2, phaseOpts{mode: "gated", n: small(), heldProb: 0.4}), true)
 	case "rotate":
 		s := start
 		for p := 0; p < 4; p++ {
@@ -483,4 +522,57 @@ func enumSpec(n, maxCancel, k int) roundSpec {
 		Actions: []action{{Op: "arrive", I: 0}, {Op: "arrive", I: 1}}}
 	p2.finish()
 	return roundSpec{Family: "enum", Phases: []phaseSpec{ps, p2}}
+}
+
+// ---- enumeration of preempted arrivals ------------------------------------------------------------------------------------
+//
+// Two callers A and B on a fresh key set, served set "ab", two held downloads. A is held at its k-th yield point inside
+// VerifySignature (k = 0..maxHoldK: before the cache look-up's result is acted upon, before / inside / after
+// keysFromRemote, ...), B arrives and runs until it is parked or has returned, then - in four variants - A goes on:
+//   0: resume A, release both downloads          1: cancel A, resume A, release
+//   2: cancel B, resume A, release               3: release the first download, then resume A, release the second
+// every step followed by a quiescence barrier. Tokens V / U and first download good / 503 as in the enumeration above.
+
+const enumHeldVariants = 4
+
+func enumHeldCount() int { return (maxHoldK + 1) * 4 * 2 * enumHeldVariants }
+
+func enumHeldSpec(k int) roundSpec {
+	d0bad := k%2 == 1
+	k /= 2
+	toks := k % 4
+	k /= 4
+	variant := k % enumHeldVariants
+	k /= enumHeldVariants
+	hold := k
+	ps := phaseSpec{Mode: "enum-held", Shape: sh("ab"), Def: fakejwks.Step{Kind: fakejwks.Deliver}}
+	for i := 0; i < 2; i++ {
+		if toks&(1<<i) != 0 {
+			ps.Callers = append(ps.Callers, callerSpec{Kind: "unknown-kid", Tok: tok{"x", "zz"}})
+		} else {
+			ps.Callers = append(ps.Callers, callerSpec{Kind: "new", Tok: tok{"a", "a"}})
+		}
+	}
+	first := fakejwks.Step{Kind: fakejwks.Deliver, Hold: true}
+	if d0bad {
+		first = fakejwks.Step{Kind: fakejwks.StatusBody, Status: 503, Body: fakejwks.BodyCurrent, Hold: true}
+	}
+	ps.Script = []fakejwks.Step{first, {Kind: fakejwks.Deliver, Hold: true}}
+	ps.Actions = []action{{Op: "arrive-held", I: 0, K: hold}, {Op: "arrive", I: 1}}
+	switch variant {
+	case 0:
+		ps.Actions = append(ps.Actions, action{Op: "resume", I: 0}, action{Op: "release", I: 0}, action{Op: "release", I: 1})
+	case 1:
+		ps.Actions = append(ps.Actions, action{Op: "cancel", I: 0}, action{Op: "resume", I: 0}, action{Op: "release", I: 0}, action{Op: "release", I: 1})
+	case 2:
+		ps.Actions = append(ps.Actions, action{Op: "cancel", I: 1}, action{Op: "resume", I: 0}, action{Op: "release", I: 0}, action{Op: "release", I: 1})
+	case 3:
+		ps.Actions = append(ps.Actions, action{Op: "release", I: 0}, action{Op: "resume", I: 0}, action{Op: "release", I: 1})
+	}
+	ps.finish()
+	p2 := phaseSpec{Mode: "enum", Shape: sh("ab"), Def: fakejwks.Step{Kind: fakejwks.Deliver},
+		Callers: []callerSpec{{Kind: "cached-or-new", Tok: tok{"a", "a"}}, {Kind: "unknown-kid", Tok: tok{"x", "zz"}}},
+		Actions: []action{{Op: "arrive", I: 0}, {Op: "arrive", I: 1}}}
+	p2.finish()
+	return roundSpec{Family: "enum-held", Phases: []phaseSpec{ps, p2}}
 }
